@@ -48,6 +48,9 @@ const (
 
 var modSvcProvider = sdk.AccAddress(repeatByte(0xee, 20))
 
+// modSvcReply is what the registered module service answers (result, output); set by the op `modcall`
+var modSvcReply = [2]string{`{"code":200,"message":""}`, outValid}
+
 // result classes of a step
 const (
 	classOK      = "ok"
@@ -235,6 +238,20 @@ func (s *Sim) Step(line string) (*StepResult, error) {
 			return err
 		})
 
+	case "modbind":
+		// another module (or the genesis of the application) binds the provider of its module service through the
+		// keeper: the reservation of the service name is a check of the message handler only
+		svc, prov, owner := op.str("svc"), op.addr("prov"), op.addr("owner")
+		dep, pricing, qos := op.coins("dep"), op.pricing(), op.uint64("qos")
+		if op.err != nil {
+			return nil, op.err
+		}
+		s.runCached(res, s.freshTxHash(), 0, func(ctx sdk.Context) error {
+			err := s.k.AddServiceBinding(ctx, svc, prov, dep, pricing, qos, optionsText, owner)
+			events = ctx.EventManager().ABCIEvents() // the deposit transfer
+			return err
+		})
+
 	case "modpause", "modstart", "modkill":
 		id, cons := tmbytes.HexBytes(op.bytes("ctx")), op.addr("cons")
 		if op.err != nil {
@@ -350,6 +367,25 @@ func buildMsg(op *Op) (msg sdk.Msg, tx []byte, idx int64, err error) {
 		input := payload(op.enum("input", "ok", "bad"), inputOK, inputBad)
 		msg = types.NewMsgCallService(op.str("svc"), op.addrs("provs"), op.addr("cons"), input, op.coins("cap"),
 			op.int64("timeout"), op.bool01("super"), op.bool01("rep"), op.uint64("freq"), op.int64("total"))
+	case "modcall":
+		// MsgCallService for the service name reserved by the module service: the handler takes the provider from
+		// the registration and invokes the service in the same transaction (keeper/module_service.go)
+		tx, idx = op.bytes("tx"), op.int64("idx")
+		if op.err == nil && len(tx) != 32 {
+			op.fail("tx", "32 bytes of hex")
+		}
+		input := payload(op.enum("input", "ok", "bad"), inputOK, inputBad)
+		mscode := op.enum("mscode", "200", "400", "500")
+		var msout string
+		switch op.enum("msout", "valid", "malformed", "absent") {
+		case "valid":
+			msout = outValid
+		case "malformed":
+			msout = outMalformed
+		}
+		modSvcReply = [2]string{`{"code":` + mscode + `,"message":""}`, msout}
+		msg = types.NewMsgCallService(op.str("svc"), op.addrs("provs"), op.addr("cons"), input, op.coins("cap"),
+			op.int64("timeout"), op.bool01("super"), op.bool01("rep"), op.uint64("freq"), op.int64("total"))
 	case "respond":
 		code := op.enum("code", "200", "400", "500")
 		var output string
@@ -449,8 +485,9 @@ func registerModules(k keeper.Keeper, modules []string, modsvc string) error {
 		err := k.RegisterModuleService(modSvcModule, &types.ModuleService{
 			ServiceName: modsvc,
 			Provider:    modSvcProvider,
+			// the answer of the module service is chosen by the op line (`modcall … mscode= msout=`)
 			ReuquestService: func(ctx sdk.Context, input string) (string, string) {
-				panic("verif: the module service is out of scope and must never be requested")
+				return modSvcReply[0], modSvcReply[1]
 			},
 		})
 		if err != nil {
